@@ -17,7 +17,7 @@ import time
 import lib
 import core
 import progast as P
-from pass_constants import snapshot_pair
+from pass_constants import snapshot_pair, ensure_built, shared_polar_runs
 
 HEADER = ("From Coq Require Import List String QArith Qcanon ZArith.\n"
           "From Polar Require Import Qcx Dist Syntax Sem Types Poly PassCNBase PassConstants PassCondNorm PassDist PassCNMatch.\n"
@@ -75,7 +75,7 @@ def count_cont(stmts):
 
 def run_pass(ctx, runs):
     t0 = time.time()
-    ok, log = lib.coq_make(["theories/PassCNMatch.vo"])
+    ok, log = ensure_built("theories/PassCNMatch.vo", ["theories/PassConstants.vo", "theories/PassCondNorm.vo", "theories/PassDist.vo"])
     cov = ctx.coverage.setdefault("pass_models", {})
     st = {"instances": 0, "in_model": 0, "model_equals_polar": 0, "hypothesis_fresh_ok": 0, "hypothesis_false": 0,
           "draws_rewritten": 0, "programs_with_rewriting": 0, "outside_model": 0, "not_modelled_dump": 0, "seeded_probes": 0,
@@ -84,16 +84,12 @@ def run_pass(ctx, runs):
     if not ok:
         ctx.violation("pass-model:DistTransformer:build", {"log": log[-2000:]}, "theories/PassCNMatch.v / PassDist.v do not build", no_input=True)
         return
-    tasks = [{"kind": "pass_snapshots", "text": t, "opts": {}, "timeout": 60} for t in PROBES]
-    probes = []
-    for t, r in zip(PROBES, lib.run_tasks(tasks, timeout=60)):
-        if "error" in r:
-            continue
-        st["seeded_probes"] += 1
-        names = [n for n, _ in r.get("snapshots") or []]
+    probes = shared_polar_runs()["dist"]
+    st["seeded_probes"] = len(probes)
+    for r in probes:
+        names = [n for n, _ in r["snapshots"]]
         if "LoopGuardTransformer" in names and "DistTransformer" not in names:
             st["refused_by_polar"] += 1     # TransformException etc.: a refusal, not a result
-        probes.append({"text": t, "opts": {}, "snapshots": r.get("snapshots") or []})
     cases, seen = [], set()
     for run in list(runs) + probes:
         pair = snapshot_pair(run, "LoopGuardTransformer", "DistTransformer")
